@@ -26,14 +26,14 @@ def env():
     return _ENV
 
 
-COEFFS = ["1", "-1", "2", "al", "-al", "al*be", "al+be", "al/be", "1/al", "cos(th)", "al*cos(th)", "dot(c,d)", "exp(-al)", "norm(d)"]
+COEFFS = ["1", "-1", "2", "al", "-al", "al*be", "al+be", "al/be", "1/al", "cos(th)", "al*cos(th)", "dot(c,d)", "exp(-al)", "norm(d)", "sqrt(al*be)", "log(al*be)"]
 TERMS = ["a", "b", "c", "cross(b,c)", "cross(a,b)", "d"]
 
 
 def coeff_obj(name):
     E = env()
     V = E["V"]
-    loc = {"al": E["al"], "be": E["be"], "th": E["th"], "cos": sp.cos, "exp": sp.exp,
+    loc = {"al": E["al"], "be": E["be"], "th": E["th"], "cos": sp.cos, "exp": sp.exp, "sqrt": sp.sqrt, "log": sp.log,
            "dot": lambda x, y: V.VectorDot(x, y), "norm": lambda x: V.VectorNorm(x), **E["vs"]}
     return sp.sympify(name, locals=loc)
 
@@ -107,8 +107,18 @@ def check_eq(item):
         enc = VecEnc()
         try:
             ev = enc.vec(expr)
+            n_dom = len(enc.domain)
             dv = enc.vec(r.lhs - r.rhs)
             t0 = _t.time()
+            # definedness: wherever the input is defined over the reals (its own roots / logarithms / divisions), the returned equation
+            # must be too -- the translator's domain conditions of the RESULT are to be implied by those of the input, not assumed
+            extra_dom = enc.domain[n_dom:]
+            if extra_dom:
+                rd = str(_solve(enc.assume + enc.side + enc.domain[:n_dom] + [z3.Not(z3.And(extra_dom))]))
+                out["queries"] += 1
+                if rd == "sat" and not rf:
+                    verdicts.append(("candidate", f"reduce_factor={rf}: returned {r} is not defined (real) everywhere the input is"))
+                    continue
             if rf:
                 # scale = coefficient isolated by the routine, read from the reduce_factor=False answer: lhs = atomic * (-scale)
                 rfalse = res[False]
@@ -175,7 +185,9 @@ expr = L - R; atom = E["vs"][unknown]
 present = any(v == atom for v, _ in [split_factor(t) for t in into_terms(expr)])
 random.seed(5)
 rnd = lambda: sp.Rational(random.randint(-5, 5) or 1, random.randint(1, 3))
-nv = NumVec({{id(v): [rnd(), rnd(), rnd()] for v in E["vs"].values()}}, {{"alpha": sp.Rational(7, 3), "beta": sp.Rational(-5, 2), "theta": sp.Rational(2, 3)}})
+vecs = {{id(v): [rnd(), rnd(), rnd()] for v in E["vs"].values()}}
+# every sign combination of the scalar coefficients (a rewriting may be right for positive values only)
+nvs = [NumVec(vecs, {{"alpha": sa * sp.Rational(7, 3), "beta": sb * sp.Rational(5, 2), "theta": sp.Rational(2, 3)}}) for sa in (1, -1) for sb in (-1, 1)]
 bad = False
 res = {{}}
 for rf in (False, True):
@@ -189,12 +201,17 @@ for rf in (False, True):
         if present or not isinstance(r, ValueError): bad = True
         continue
     if not present: bad = True; continue
-    ev = nv.vec(expr); dv = nv.vec(r.lhs - r.rhs)
-    if rf:
-        scale = -sp.expand(res[False].lhs).coeff(atom) if not isinstance(res[False], Exception) else None
-        if scale is None or r.lhs != atom or not close([d * nv.scal(scale) for d in dv], ev): bad = True
-    else:
-        if not (close(dv, [-x for x in ev]) or close(dv, ev)): bad = True
+    for nv in nvs:
+        try:
+            ev = nv.vec(expr); dv = nv.vec(r.lhs - r.rhs)
+        except Exception as e:
+            print("not evaluable at", nv.sa, type(e).__name__); continue
+        if any(sp.N(x).has(sp.zoo, sp.nan) for x in list(ev) + list(dv)): continue
+        if rf:
+            scale = -sp.expand(res[False].lhs).coeff(atom) if not isinstance(res[False], Exception) else None
+            if scale is None or r.lhs != atom or not close([d * nv.scal(scale) for d in dv], ev): bad = True; print("differs at", nv.sa)
+        else:
+            if not (close(dv, [-x for x in ev]) or close(dv, ev)): bad = True; print("differs at", nv.sa)
 if bad:
     print("REPRODUCED"); sys.exit(1)
 '''
@@ -260,6 +277,16 @@ def check_scalar(ctx):
         else:
             ctx.ob(f"solve_for_scalar:{name}", "inconclusive" if worst == "unknown" else "unencoded", worst)
     check_nonvector(ctx)
+    try:
+        cb = complex_coeff_bad()
+    except Exception as e:
+        cb = None
+        ctx.ob("solve_for_vector:complex unit-modulus coefficients", "unencoded", f"{type(e).__name__}: {e}")
+    if cb:
+        ctx.violation("C16:solve_for_vector:complex-coefficient", "; ".join(cb[:3]) + f" ({len(cb)} cases)",
+                      "import sys\nfrom checks import c16\nb = c16.complex_coeff_bad()\nprint(b)\nif b:\n    print('REPRODUCED'); sys.exit(1)\n")
+    elif cb is not None:
+        ctx.ob("solve_for_vector:complex unit-modulus coefficients (I, -I, exp(I th)): concrete substitution at three assignments", "discharged", nontrivial=False)
     # apply: F uninterpreted -> congruence
     F = sp.Function("F")
     E = env()
@@ -279,6 +306,40 @@ def check_scalar(ctx):
             ctx.violation(f"C16:apply:{name}", f"apply({eqn}, F) = {r}", REPLAY_SCALAR.format(name="apply:" + name))
 
 
+def complex_coeff_bad():
+    """coefficients of unit modulus that are not +-1 (I, -I, exp(I th)): the real-valued encoder cannot hold them, so the returned
+    equation is substituted back and evaluated at three assignments (concrete, stated as such)"""
+    import random
+    from vlib.vecsem import NumVec
+    from symplyphysics.core.experimental.solvers import solve_for_vector
+    E = env()
+    a, b, c = E["vs"]["a"], E["vs"]["b"], E["vs"]["c"]
+    th, al = E["th"], E["al"]
+    bad = []
+    rng_ = random.Random(3)
+    rnd = lambda: sp.Rational(rng_.randint(-5, 5) or 1, rng_.randint(1, 3))
+    nvs = [NumVec({id(v): [rnd(), rnd(), rnd()] for v in E["vs"].values()}, {"alpha": rnd(), "beta": rnd(), "theta": rnd()}) for _ in range(3)]
+    for label, expr in (("I*a + b", sp.I * a + b), ("-I*a + al*b + c", -sp.I * a + al * b + c), ("exp(I*th)*a + b", sp.exp(sp.I * th) * a + b)):
+        for rf in (False, True):
+            try:
+                r = solve_for_vector(expr, a, rf)
+            except Exception as e:
+                bad.append(f"{label} (reduce_factor={rf}): raised {type(e).__name__}: {e}")
+                continue
+            for nv in nvs:
+                zero = lambda vec_: all(abs(sp.N(sp.simplify(x_))) < 1e-12 for x_ in vec_)
+                if rf:
+                    resid = nv.vec(sp.expand(expr.subs(a, r.rhs))) if r.lhs == a else None
+                    ok = resid is not None and zero(resid)
+                else:
+                    d_, e_ = nv.vec(sp.expand(r.lhs - r.rhs)), nv.vec(sp.expand(expr))
+                    ok = zero([x_ + y_ for x_, y_ in zip(d_, e_)]) or zero([x_ - y_ for x_, y_ in zip(d_, e_)])
+                if not ok:
+                    bad.append(f"{label} (reduce_factor={rf}): returned {r}, not equivalent to the input")
+                    break
+    return bad
+
+
 def nonvector_cases():
     """expressions that are NOT vector expressions (division by a vector, powers of vectors, scalar + vector, functions of vectors):
     a request to rearrange them must be refused"""
@@ -288,6 +349,9 @@ def nonvector_cases():
     x, y = sp.symbols("qx qy", real=True)
     return c, [("b/a", b / a), ("b/(2 a)", b / (2 * a)), ("b/(a + c)", b / (a + c)), ("b/(x a + y c)", b / (x * a + y * c)),
                ("b/cross(a, c)", b / V.VectorCross(a, c)), ("b/cross(a, c)^2", b / V.VectorCross(a, c)**2), ("b/a^2", b / a**2), ("a^2", a**2), ("a^x", a**x),
+               # a power of a vector as a FACTOR of a term, whatever the sign or kind of its exponent
+               ("a^2 b", a**2 * b), ("a^x b", a**x * b), ("x a^2 b", x * a**2 * b), ("cross(a, b)^2 b", V.VectorCross(a, b)**2 * b), ("a^(1/2) b", sp.sqrt(a) * b),
+               ("(a + b)^2 b", (a + b)**2 * b), ("b a^(-x)", b * a**(-x)), ("a b", a * b), ("a b / norm(a)", a * b / V.VectorNorm(a)),
                ("scalar x", x), ("dot(a, b)", V.VectorDot(a, b)), ("norm(a)", V.VectorNorm(a)), ("sin(a)", sp.sin(a)),
                # legitimate scalar denominators, for contrast: must be ACCEPTED
                ("b/norm(a) [vector]", b / V.VectorNorm(a)), ("b/dot(a, c) [vector]", b / V.VectorDot(a, c))]
